@@ -32,6 +32,9 @@ def run(db, rep, tier):
     rep.rule("R2-forget", "cumulative ACK advance is paired with cleanup_sacked_intervals(old, new)", 1)
     rep.rule("R3-serial", "no <,>,<=,>= between two sequence numbers outside seq_compare", 6)
     rep.rule("R4-no-skip", "every well-formed SACK block above the ACK is processed piece by piece", 1)
+    rep.rule("R5-record-above", "a SACKed piece that starts above the cumulative ACK (any distance >= 1, across the wrap) is recorded "
+                                "in the interval set, never folded into the cumulative ACK", 1)
+    rep.rule("R6-sack-always", "SACK blocks are processed both on segments that advance the cumulative ACK and on those that do not", 1)
     r1(db, rep)
     r2(db, rep)
     c06.r2(db, rep, files=("src/tcp_ip/ack_tracker.cpp",),
@@ -39,9 +42,13 @@ def run(db, rep, tier):
                        "cut a possibly wrapped range into at most two non-wrapping boost::icl intervals - not a sequence ordering"},
            rule="R3-serial")
     r4(db, rep)
+    r5(db, rep)
+    r6(db, rep)
     rep.explanation = ("Narrow claim: decides the query's decision table (values are only touched through seq_compare's sign and "
                        "set membership, so the table is complete), the ACK-advance/cleanup pairing, the comparison discipline "
-                       "and that no SACK block is skipped. Does NOT decide the interval arithmetic over the wrapping space, "
+                       "and that no SACK block is skipped, that a piece above the ACK is recorded rather than merged (R5, finite "
+                       "evaluation of the branch condition over ACK values and distances around 1 and the wrap) and that SACK "
+                       "processing does not depend on whether the ACK advanced (R6). Does NOT decide the interval arithmetic over the wrapping space, "
                        "interval merging, or agreement with a set-of-bytes model over histories.")
     rep.assumptions += ["boost::icl::contains / insert / erase implement set semantics on closed intervals"]
 
@@ -147,3 +154,103 @@ def r4(db, rep):
     else:
         rep.violation("R4-no-skip", "process_sack", facts.loc(f, decl[0]),
                       "a well-formed SACK block that ends above the ACK can be skipped without being recorded (path around the piece loop)")
+
+
+def r5(db, rep):
+    """the recorded-vs-merged decision of process_sack, evaluated for pieces that start d >= 1 above the ACK"""
+    from vlib import ieval
+    f = fn(db, AT + "::process_sack(")
+    key = "process_sack:piece-branch"
+    cand = None
+    for n in facts.fn_nodes(f):
+        if n["k"] != "IfStmt":
+            continue
+        real = [x for x in n["c"] if x is not None]
+        if len(real) < 3:
+            continue
+
+        def inserts(b):
+            return any(x["k"] == "CXXMemberCallExpr" and x.get("cname") in ("insert", "add") and "acked_intervals_" in facts.expr_str(x)
+                       for x in facts.walk(b))
+
+        def sets_ack(b):
+            return any(x["k"] == "BinaryOperator" and x.get("op") == "=" and strip(x["c"][0]).get("member") == "ack_number_"
+                       for x in facts.walk(b))
+        if inserts(real[1]) != inserts(real[2]) and (sets_ack(real[1]) or sets_ack(real[2])):
+            cand = (n, real, inserts(real[1]))
+    if cand is None:
+        rep.analysis_broken("process_sack: the branch choosing between recording a piece and advancing the ACK was not found")
+        return
+    node, real, then_inserts = cand
+    sc = db.fns_named("Tins::Internals::seq_compare")
+    if not sc or not sc[0].get("body"):
+        rep.analysis_broken("seq_compare body not available")
+        return
+    sc = sc[0]
+    starts = set()
+    for x in facts.fn_nodes(f):
+        if x["k"] == "VarDecl" and x.get("c") and any(y.get("cname") == "interval_start" for y in facts.walk(x["c"][0])):
+            starts.add(x["var"])
+    M = 1 << 32
+    bad = None
+    n = 0
+    try:
+        for A in (0, 1, 1000, (1 << 31) - 1, 1 << 31, M - 2, M - 1):
+            for d in (1, 2, 3, 1460, (1 << 31) - 1):
+                S = (A + d) % M
+
+                def tf(x, A=A, S=S):
+                    if x["k"] == "DeclRefExpr" and x.get("var") in starts:
+                        return S
+                    if x["k"] == "CallExpr" and x.get("cname") == "interval_start":
+                        return S
+                    if x["k"] == "CallExpr" and x.get("cname") == "interval_end":
+                        return (S + 99) % M
+                    if x["k"] == "MemberExpr" and x.get("member") == "ack_number_":
+                        return A
+                    if x["k"] == "CallExpr" and x.get("cname") == "seq_compare":
+                        a = ieval.ev(f, x["c"][1], {"__termfn__": tf}) % M
+                        b = ieval.ev(f, x["c"][2], {"__termfn__": tf}) % M
+                        env = {sc["params"][0]["var"]: a, sc["params"][1]["var"]: b}
+                        return ieval.run_body(sc, sc["body"], env)
+                    return None
+                c = bool(ieval.ev(f, real[0], {"__termfn__": tf}))
+                n += 1
+                recorded = (c == then_inserts)
+                if not recorded and bad is None:
+                    bad = ("with cumulative ACK %d a SACKed piece starting at %d (%d above it) is folded into the cumulative ACK instead "
+                           "of being recorded: byte(s) %d..%d were never acknowledged but the ACK jumps past them"
+                           % (A, S, d, A, (S - 1) % M))
+    except ieval.Unknown as e:
+        rep.analysis_broken("process_sack: branch condition outside the finite evaluator: %s" % e)
+        return
+    if bad:
+        rep.violation("R5-record-above", key, facts.loc(f, node), bad)
+    else:
+        rep.ok("R5-record-above", key, facts.loc(f, node), "`%s` selects the recording branch for all %d (ACK, distance>=1) cells"
+               % (facts.expr_str(real[0]), n))
+
+
+def r6(db, rep):
+    from rules.c12 import path_avoiding
+    f = fn(db, AT + "::process_packet(")
+    g = cfg.FnCFG(f)
+    key = "process_packet:process_sack"
+    calls = [x for x in facts.fn_nodes(f) if x["k"] == "CXXMemberCallExpr" and x.get("cname") == "process_sack"]
+    adv = [x for x in facts.fn_nodes(f) if x["k"] == "BinaryOperator" and x.get("op") == "=" and
+           strip(x["c"][0]).get("member") == "ack_number_"]
+    if len(calls) != 1 or len(adv) != 1:
+        rep.analysis_broken("process_packet: expected one process_sack call and one ACK advance, found %d and %d" % (len(calls), len(adv)))
+        return
+    C, A = g.pos(calls[0]), g.pos(adv[0])
+    after_adv = path_avoiding(g, A, C, [])
+    without = g.reached_from_entry_avoiding(C, [A]) is not None
+    if not after_adv:
+        rep.violation("R6-sack-always", key, facts.loc(f, calls[0]),
+                      "no path from the cumulative-ACK advance to process_sack(): SACK blocks carried by a segment that also advances "
+                      "the ACK are dropped")
+    elif not without:
+        rep.violation("R6-sack-always", key, facts.loc(f, calls[0]),
+                      "process_sack() is only reached after an ACK advance: SACK blocks on duplicate ACKs are dropped")
+    else:
+        rep.ok("R6-sack-always", key, facts.loc(f, calls[0]), "process_sack() reachable both through and around the ACK advance")
